@@ -85,6 +85,24 @@ func replaceCase(c *lib.Ctx, rng *lib.RNG, sc *lib.Script, fails *[]lib.OracleFa
 			s.readers[3].Receive(packet.New(types.NewInt(intOf(ev.pck) + 1000)))
 		}
 		answer(sessions[0], *pending)
+		if which == 1 {
+			// A is gone, the response to request 1 is A's drop – but the sink's answer still travels
+			// up through B (its backward goroutine, its tracer, Receive on B's in-port, where it ends
+			// at A's closed writer): wait until it has passed B's in-port, hooks included, so that the
+			// frames are at rest when they are read
+			deadline := time.Now().Add(watchdog)
+			for seen := false; !seen && time.Now().Before(deadline); time.Sleep(50 * time.Microsecond) {
+				t.mu.Lock()
+				for _, e := range t.log {
+					if e.sess == 0 && e.key.sym == 2 && e.key.in >= 0 && !e.inb {
+						seen = true
+					}
+				}
+				t.mu.Unlock()
+			}
+			// (the hooks run under the reader's lock: once this call gets the lock they are done)
+			f.syms[2].In("in").Open(sessions[0].proc).AddInboundHook(packet.HookFunc(func(*packet.Packet) {}))
+		}
 		if !response(sessions[0], "request 1 (in flight at the replacement)") {
 			class, what = "flow", "no response to the request that was in flight when the symbol was replaced"
 			return
